@@ -62,8 +62,14 @@ def gen_scenario(rng, crash):
     return ("relaxed" if relaxed else "strict"), ops
 
 
-def enumerate_trials(rng, mode, ops, per_point, crash):
-    """All crash points of the scenario; per point a set of (lag, monitor choice, pre, recrash)."""
+def probe_line(mode, ops, crash):
+    return "%s crash=%d k=%d lag=0 mon=max pre=0 recrash=0 probe=1 ; %s" % (mode, crash, len(ops), " ; ".join(ops))
+
+
+def enumerate_trials(rng, mode, ops, per_point, crash, event_steps=()):
+    """All crash points of the scenario; per point a set of (lag, monitor choice, pre, recrash).
+    event_steps: steps at which the crash node had user events pending (from a probe run): there the
+    pre-drain snapshot is always included."""
     trials = []
     L = len(ops)
     for k in range(0, L + 1):
@@ -79,8 +85,10 @@ def enumerate_trials(rng, mode, ops, per_point, crash):
         combos.append((min(k, rng.range(0, 6)), "mix%d" % rng.below(1000), 0, 0))
         combos = sorted(set(combos))
         if per_point and len(combos) > per_point:
-            # always keep the two extremes, sample the rest
+            # always keep the two extremes (and the pending-events snapshot where there are events), sample the rest
             keep = [c for c in combos if c[0] in (0, k) and c[1] in ("max", "min") and c[2] == 0]
+            if k in event_steps:
+                keep += [c for c in combos if c[2] == 1]
             rest = [c for c in combos if c not in keep]
             while len(keep) < per_point and rest:
                 keep.append(rest.pop(rng.below(len(rest))))
